@@ -1,15 +1,24 @@
 #!/bin/bash
 # usage: lib/mutant_check.sh <name> <patch.diff|-> <property>...
-# Runs the registered checks against a MUTATED scratch copy of /repo (HEAD + patch) using a scratch copy of
-# /verif, so that neither /repo nor /verif/_build is touched (other builders may be using them).  Prints the
-# check output; scratch copies are removed afterwards.  With patch "-" the unchanged tree is checked.
+# Runs the registered checks against a MUTATED scratch copy of /repo (HEAD + patch) using a scratch copy of the
+# COMMITTED /verif (git HEAD; compiled .vo files are reused for files that are unchanged in the working tree), so
+# that neither /repo nor /verif is touched and half-written files of other builders do not matter.
+# With patch "-" the unchanged tree is checked.  TIER=thorough, TAIL=<n>, KEEP=1 are honoured.
 name=$1; patch=$2; shift 2
 W=/tmp/mutchk_$name
-rm -rf $W; mkdir -p $W
+rm -rf $W; mkdir -p $W/verif
 git -C /repo worktree prune
 git -C /repo worktree add -q --detach $W/repo HEAD || exit 3
 if [ "$patch" != "-" ]; then (cd $W/repo && git apply "$patch") || { echo "PATCH DOES NOT APPLY"; git -C /repo worktree remove --force $W/repo; rm -rf $W; exit 3; }; fi
-rsync -a --exclude .git --exclude _build/cases --exclude replays --exclude evidence --exclude seeded /verif/ $W/verif/
+git -C /verif archive HEAD | tar -x -C $W/verif
+# reuse build products: go cache, and .vo of committed-and-unmodified sources
+mkdir -p $W/verif/_build; cp -a /verif/_build/gocache $W/verif/_build/ 2>/dev/null
+changed=$(cd /verif && git status --porcelain -- coq | awk '{print $2}')
+(cd /verif/coq && find . -name '*.vo' -o -name '*.glob' -o -name '*.vos' -o -name '*.vok' | while read f; do
+   v="coq/${f#./}"; v="${v%.*}.v"
+   case "$v" in coq/Gen/*) ;; *) if echo "$changed" | grep -qx "$v"; then continue; fi; [ -f "$W/verif/$v" ] || continue;; esac
+   mkdir -p "$W/verif/coq/$(dirname $f)"; cp -p "$f" "$W/verif/coq/$f"; done)
+cp -p /verif/coq/Gen/*.v $W/verif/coq/Gen/ 2>/dev/null
 mkdir -p $W/verif/replays $W/verif/evidence
 sed -i "s#=> /repo#=> $W/repo#" $W/verif/harness/go.mod
 cd $W/verif
